@@ -7,10 +7,10 @@ from props import c03
 
 OBLIGATIONS = dict(
     prop_file='Properties/C11.v',
-    glue=['Glue/CoreGlue.v', 'Glue/Pin_p_expire.v'] + ['Glue/Pin_fp_C11.v'],
+    glue=['Glue/CoreGlue.v', 'Glue/Pin_p_expire.v'] + ['Glue/Pin_fp_C11.v', 'Glue/Pin_p_rvq_flags.v'],
     extra=['Model/CoreCheck.vo'],
     gen_items=['k_expire_cmp', 'g_euclid_expire', 'g_cosine_expire', 'g_euclid_replace', 'g_cosine_replace', 'g_rvq_shared_expire', 'p_expire',
-               'o_euclid_collectives', 'o_cosine_collectives', 'fp_C11'],
+               'o_euclid_collectives', 'o_cosine_collectives', 'fp_C11', 'p_rvq_flags'],
 )
 ASSUMPTIONS = [
     'which batch vector revives a dead code is an oracle (torch.randperm / randint): the theorems hold for every pick list drawn from the pool; the correspondence reads the picks off the post-state and checks membership in the pool',
